@@ -62,6 +62,7 @@ type ProofOpts struct {
 	Thorough  bool
 	Verbose   bool
 	Sim       bool
+	Alloc     bool // activate the @alloc clauses (ghost allocation counter bounds)
 	Rel       bool // also prove independence from the scratch parameters (2-safety)
 	OnlyKinds map[string]bool // restrict the check pass to these obligation kinds (no inference)
 	Hook      func(fp *FuncProof) // driver-specific setup (adds atoms, spec hooks)
@@ -94,6 +95,8 @@ type FuncProof struct {
 	reach    map[*Cut]map[*Cut]bool
 	sim      *Sim
 	growBlocks map[int]bool
+	usedHints  bool
+	retOrd     map[token.Pos]int
 	mu       sync.Mutex
 }
 
@@ -111,11 +114,13 @@ type ProofStats struct {
 	Secs         float64  `json:"wall_seconds"`
 	Unsupported  []string `json:"unsupported,omitempty"`
 	WeakEdges    int      `json:"non_strict_measure_edges"`
+	Hints        bool     `json:"inference_started_from_hint_file"`
 }
 
 func (eng *Engine) NewFuncProof(fn *ssa.Function, fc *FuncContract, opts ProofOpts) *FuncProof {
 	ex := eng.newExec(fn, fc, opts.Mode)
 	ex.relMode = opts.Rel
+	ex.allocMode = opts.Alloc
 	if opts.Sim && fc != nil && fc.Sim != "" {
 		if cfg, err := parseSimCfg(fc); err == nil && cfg != nil {
 			ex.simVariant = cfg.Variant
@@ -1052,12 +1057,13 @@ func (fp *FuncProof) exitGoals(pe *PathEnd) []goalItem {
 	fnName := fp.eng.displayName(fp.fn)
 	from := fp.fromLabel(pe)
 	line := fp.line(pe.Pos)
+	exitName := fmt.Sprintf("exit#%d", fp.returnOrdinal(pe.Pos))
 	// returned strings own their memory: they come from a []byte->string conversion (a copy by the
 	// language definition), a constant, or are empty - never a view of the input or of a buffer
 	for j, rv := range pe.Results {
 		if sv, ok := rv.(*StringV); ok {
 			owns := sv.Reg.Copy || sv.Reg.Kind == "nil" || strings.HasPrefix(sv.Reg.Name, "strconst")
-			items = append(items, goalItem{name: fmt.Sprintf("%s/%s/exit@L%d/frame/returned-string-%d-owns-memory", fnName, from, line, j), kind: "frame", t: BoolC(owns), nhyp: -1, line: line})
+			items = append(items, goalItem{name: fmt.Sprintf("%s/%s/%s/frame/returned-string-%d-owns-memory", fnName, from, exitName, j), kind: "frame", t: BoolC(owns), nhyp: -1, line: line})
 		}
 	}
 	for k, c := range fp.fc.Ensures {
@@ -1070,7 +1076,7 @@ func (fp *FuncProof) exitGoals(pe *PathEnd) []goalItem {
 		env.hsink, env.qsink = &hs, &qs
 		env.old.hsink, env.old.qsink = &hs, &qs
 		t, err := env.EvalBool(c.Expr)
-		name := fmt.Sprintf("%s/%s/exit@L%d/ensures#%d", fnName, from, line, k+1)
+		name := fmt.Sprintf("%s/%s/%s/ensures#%d", fnName, from, exitName, k+1)
 		if c.Label != "" {
 			name += "[" + c.Label + "]"
 		}
@@ -1154,14 +1160,34 @@ func (fp *FuncProof) checkWeakEdges() {
 func (fp *FuncProof) Run() {
 	t0 := time.Now()
 	fp.Prepare()
+	hinted := false
 	if fp.opts.OnlyKinds == nil {
-		fp.Houdini()
+		hinted = fp.loadHints()
+		if !hinted {
+			fp.Houdini()
+		}
 	}
 	fp.Check()
+	if hinted {
+		// the hinted invariants are verified like any others; if anything fails (stale hints or a
+		// changed function) inference is redone from the hint state and the check repeated
+		if tot, dis := fp.ledger.Counts(); tot != dis {
+			fp.ledger = NewLedger()
+			fp.weak = map[[2]int]bool{}
+			fp.Houdini()
+			fp.Check()
+		}
+	}
 	if fp.opts.Rel {
 		fp.RelCheck()
 	}
 	fp.stats.Secs = time.Since(t0).Seconds()
+	fp.stats.Hints = fp.usedHints
+	if os.Getenv("RJV_WRITE_HINTS") != "" && fp.opts.OnlyKinds == nil {
+		if tot, dis := fp.ledger.Counts(); tot == dis && len(fp.cuts) > 2 {
+			fp.writeHints()
+		}
+	}
 }
 
 // specLemmaInstances: instances of the absorption lemma (Dead and Done are absorbing) for every
@@ -1195,4 +1221,32 @@ func (fp *FuncProof) specLemmaInstances(pe *PathEnd, extra []*Term) []*Term {
 		}
 	}
 	return out
+}
+
+// returnOrdinal: 1-based index of a return statement among the function's returns in source
+// order (obligation names must not depend on line numbers).
+func (fp *FuncProof) returnOrdinal(pos token.Pos) int {
+	fp.mu.Lock()
+	defer fp.mu.Unlock()
+	if fp.retOrd == nil {
+		fp.retOrd = map[token.Pos]int{}
+		var ps []token.Pos
+		for _, b := range fp.fn.Blocks {
+			if len(b.Instrs) == 0 {
+				continue
+			}
+			if r, ok := b.Instrs[len(b.Instrs)-1].(*ssa.Return); ok {
+				ps = append(ps, r.Pos())
+			}
+		}
+		sort.Slice(ps, func(i, j int) bool { return ps[i] < ps[j] })
+		n := 0
+		for _, p := range ps {
+			if _, ok := fp.retOrd[p]; !ok {
+				n++
+				fp.retOrd[p] = n
+			}
+		}
+	}
+	return fp.retOrd[pos]
 }
